@@ -132,7 +132,21 @@ func (op Sub) Disassembler(arch *Arch, instr string) (string, error) {
 
 // The simulation does nothing
 func (op Sub) Simulate(vm *VM, instr string) error {
-	// TODO
+	reg_bits := vm.Mach.R
+	regDest := get_id(instr[:reg_bits])
+	regSrc := get_id(instr[reg_bits : reg_bits*2])
+	switch vm.Mach.Rsize {
+	case 8:
+		vm.Registers[regDest] = vm.Registers[regDest].(uint8) - vm.Registers[regSrc].(uint8)
+	case 16:
+		vm.Registers[regDest] = vm.Registers[regDest].(uint16) - vm.Registers[regSrc].(uint16)
+	case 32:
+		vm.Registers[regDest] = vm.Registers[regDest].(uint32) - vm.Registers[regSrc].(uint32)
+	case 64:
+		vm.Registers[regDest] = vm.Registers[regDest].(uint64) - vm.Registers[regSrc].(uint64)
+	default:
+		return errors.New("invalid register size, 8, 16, 32 and 64 bits are supported")
+	}
 	vm.Pc = vm.Pc + 1
 	return nil
 }
